@@ -43,8 +43,29 @@ def hexlike():
     return st.tuples(st.sampled_from(["#", "#", "", " #", "##"]), st.one_of(body, sized, sized)).map("".join)
 
 
+CONFUSABLE = {"s": ["ſ"], "fi": ["ﬁ"], "fl": ["ﬂ"], "k": ["K"], "i": ["ı", "İ", "ⅰ"], "ss": ["ß"], "a": ["ａ", "а"], "e": ["ｅ", "е"], "o": ["ο", "ｏ"], "d": ["ⅾ"], "l": ["ⅼ"], "m": ["ⅿ"], "c": ["ⅽ", "с"]}
+
+
+@st.composite
+def keyword_confusables(draw):
+    """a CSS colour keyword (or function name) with one or two characters replaced by Unicode characters that lower(),
+    casefold() or NFKC map onto the ASCII original (long s, ligatures, Kelvin sign, full-width, Roman numerals, Cyrillic)"""
+    from vlib.oracles.css import KEYWORDS
+
+    word = draw(st.sampled_from(sorted(KEYWORDS) + ["rgb(1,2,3)", "hsl(0,0%,50%)", "transparent", "inherit"]))
+    for _ in range(draw(st.integers(1, 2))):
+        keys = [k for k in CONFUSABLE if k in word]
+        if not keys:
+            break
+        k = draw(st.sampled_from(keys))
+        word = word.replace(k, draw(st.sampled_from(CONFUSABLE[k])), 1)
+    if draw(st.booleans()):
+        word = word.upper() if draw(st.booleans()) else word.title()
+    return word
+
+
 def strings():
-    return st.one_of(near_miss(), near_miss(), func_with_args(), hexlike(), st.text(max_size=20), st.sampled_from(FRAGMENTS))
+    return st.one_of(near_miss(), near_miss(), func_with_args(), hexlike(), keyword_confusables(), st.text(max_size=20), st.sampled_from(FRAGMENTS))
 
 
 def scalars():
